@@ -2009,4 +2009,7 @@ theorem refineSpacing_jittered (g : Nat → Rat) (hg : StrictMono g) {M : Nat} (
       _ ≤ ε * (k j : Rat) + ε * (k (j + 1) : Rat) := add_le_add a1 a2
       _ < (g j - g 0) / 2 := by have := hgrow j h1 hjM; linarith
 
+theorem ofList_rowOf (p : V3) : V3.ofList (rowOf p) = some p := by
+  obtain ⟨x, y, z⟩ := p; rfl
+
 end HdVerif.Stack
